@@ -99,6 +99,8 @@ type c39run struct {
 	viaFakenet bool // both connections run over x/fakenet conns whose underlying reads ignore Close (the stdio deployment)
 	second    int // >0: a second client dials the same server and makes that many calls
 	accepted  int
+	aClosing  simrt.Event // set when Close is invoked on A
+	eagerBind int         // 1: A's Binder spawns a goroutine that calls at once; 2: and one that closes
 }
 
 type msgRec struct {
@@ -271,6 +273,9 @@ func (c39) NewRun(plan *simrt.Source, job *harn.Job) harn.Run {
 		r.second = 1 + plan.Draw(3)
 	}
 	r.viaFakenet = plan.Chance(200)
+	if plan.Chance(150) {
+		r.eagerBind = 1 + plan.Draw(2)
+	}
 	// raw-peer configuration: only A is a real connection
 	r.raw = plan.Chance(200)
 	if v, ok := job.Knobs["raw"]; ok {
@@ -288,12 +293,15 @@ func (c39) NewRun(plan *simrt.Source, job *harn.Job) harn.Run {
 		r.net.B = simnet.Faults{}
 		r.net.A = simnet.Faults{ShortReads: r.net.A.ShortReads, ShortWrite: r.net.A.ShortWrite}
 		for i, n := 0, plan.Draw(7); i < n; i++ {
-			r.rawScript = append(r.rawScript, plan.Draw(6))
+			r.rawScript = append(r.rawScript, plan.Draw(7))
 		}
 		r.net.Desc = fmt.Sprintf("RAW PEER script=%v cap=%d A=%+v", r.rawScript, r.net.Cap, r.net.A)
 	}
 	if r.viaFakenet && !r.raw {
 		r.net.Desc += " + transport wrapped in x/fakenet over streams whose Read ignores Close"
+	}
+	if r.eagerBind > 0 {
+		r.net.Desc += fmt.Sprintf(" + A's Binder uses the connection from spawned goroutines during set-up (%d)", r.eagerBind)
 	}
 	if r.second > 0 {
 		r.net.Desc += fmt.Sprintf(" + second client making %d calls on its own connection to the same server", r.second)
@@ -496,6 +504,25 @@ func (wr *recWriter) Write(ctx context.Context, msg jsonrpc2.Message) (int64, er
 
 func (ep *endpoint) Bind(ctx context.Context, c *jsonrpc2.Connection) jsonrpc2.ConnectionOptions {
 	ep.conn = c
+	if ep.idx == 0 && ep.r.eagerBind > 0 {
+		// A Binder that starts using the connection from goroutines it spawns
+		// (an initialisation call, a watchdog that closes the connection): they
+		// race with the rest of the connection set-up.
+		r := ep.r
+		r.tasksAll++
+		simrt.Go("A.eager-call", func() {
+			r.doCall(ep, "A.eager-call", opPlan{Kind: "call", Method: "echo", Awaiters: 1})
+			r.tasksDone++
+		})
+		if r.eagerBind > 1 {
+			r.tasksAll++
+			simrt.Go("A.eager-close", func() {
+				r.doClose(ep)
+				r.tasksDone++
+			})
+		}
+		r.sim.Probe("binder-uses-connection-during-setup")
+	}
 	return jsonrpc2.ConnectionOptions{
 		Framer:    recFramer{ep},
 		Preempter: jsonrpc2.PreempterFunc(ep.preempt),
@@ -568,6 +595,10 @@ func (ep *endpoint) handle(ctx context.Context, req *jsonrpc2.Request) (interfac
 		simrt.Go(ep.name+".responder", func() {
 			for i := 0; i < delay; i++ {
 				simrt.Yield("responder")
+			}
+			if p.Nonce >= 900000 {
+				// requests of the raw peer stay open until the settle phase releases them
+				simrt.WaitAny("responder-wait", r.release)
 			}
 			// From here on the request is being answered: Close cannot return
 			// before Respond's bookkeeping is done (the request is counted as
@@ -712,6 +743,9 @@ func (r *c39run) doCall(ep *endpoint, task string, o opPlan) {
 func (r *c39run) doClose(ep *endpoint) {
 	ep.closeInv = true
 	r.anyClose = true
+	if ep.idx == 0 {
+		r.aClosing.Set()
+	}
 	ep.conn.Close()
 	r.closeReturned(ep, "Close")
 }
@@ -761,7 +795,7 @@ func (r *c39run) Body(s *simrt.Sim) {
 			simrt.Yield("wait-for-accept")
 		}
 	}
-	r.tasksAll = len(r.tasks)
+	r.tasksAll += len(r.tasks)
 	if r.second > 0 {
 		r.tasksAll++
 		simrt.Go("C.task", r.secondClient)
@@ -902,6 +936,17 @@ func (r *c39run) OnQuiesce(s *simrt.Sim, _ int) bool {
 	case 1:
 		// Faults stop: heal stalls, release blocked handlers, close everything.
 		r.settle = true
+		if r.raw {
+			// raw configuration: A starts closing while the peer's requests are
+			// still open and the peer is still talking; they are released in the
+			// next phase and the peer disconnects in the one after.
+			simrt.Go("settle", func() {
+				r.eps[0].end.Heal()
+				ep := r.eps[0]
+				simrt.Go(ep.name+".settle-close", func() { r.doClose(ep) })
+			})
+			return true
+		}
 		simrt.Go("settle", func() {
 			for _, ep := range r.eps {
 				if ep != nil && ep.end != nil {
@@ -913,17 +958,19 @@ func (r *c39run) OnQuiesce(s *simrt.Sim, _ int) bool {
 		})
 		return true
 	case 2:
+		if r.raw {
+			simrt.Go("settle-release", func() {
+				simrt.Close("settle-release", r.release)
+				r.released = true
+			})
+			return true
+		}
 		simrt.Go("settle-close", func() {
 			for _, ep := range r.eps {
 				ep := ep
 				if ep.conn != nil {
 					simrt.Go(ep.name+".settle-close", func() { r.doClose(ep) })
 				}
-			}
-			if r.raw {
-				// the peer disconnects
-				r.rawp.end.Close()
-				return
 			}
 			r.server.Shutdown()
 			simrt.Go("server-wait", func() {
@@ -938,6 +985,11 @@ func (r *c39run) OnQuiesce(s *simrt.Sim, _ int) bool {
 			})
 		})
 		return true
+	case 3:
+		if r.raw {
+			simrt.Go("settle-peer-disconnects", func() { r.rawp.end.Close() })
+			return true
+		}
 	}
 	return false
 }
